@@ -113,6 +113,54 @@ mod tests {
         );
     }
 
+    /// C12: a String variable carrying a forged upload marker is answered with an error, not a panic.
+    #[test]
+    fn c12_forged_upload_marker_is_an_error() {
+        struct Q5;
+        #[Object]
+        impl Q5 {
+            async fn x(&self) -> i32 {
+                0
+            }
+        }
+        struct M5;
+        #[Object]
+        impl M5 {
+            async fn up(&self, file: Upload) -> i32 {
+                *file as i32
+            }
+        }
+        let schema = Schema::new(Q5, M5, EmptySubscription);
+        let req = Request::new("mutation($f: Upload!) { up(file: $f) }")
+            .variables(Variables::from_json(serde_json::json!({"f": "#__graphql_file__:x"})));
+        let r = block_on(schema.execute(req));
+        assert!(!r.errors.is_empty(), "a forged marker must be rejected with an error");
+    }
+
+    /// C17: a deprecation reason containing a double quote is exported as valid SDL.
+    #[test]
+    fn c17_deprecation_reason_with_quote_exports_valid_sdl() {
+        struct Q6;
+        #[Object]
+        impl Q6 {
+            #[graphql(deprecation = "use \"y\" instead")]
+            async fn x(&self) -> i32 {
+                0
+            }
+        }
+        let schema = Schema::new(Q6, EmptyMutation, EmptySubscription);
+        let sdl = schema.sdl();
+        let doc = async_graphql::parser::parse_schema(&sdl);
+        assert!(doc.is_ok(), "exported SDL does not parse: {:?}\n{}", doc.err(), sdl);
+    }
+
+    /// C06: null for a non-null list argument is an error, not the list [null].
+    #[test]
+    fn c06_null_is_not_coerced_to_a_list_of_null() {
+        assert!(<Vec<Option<i32>> as InputType>::parse(Some(Value::Null)).is_err());
+        assert!(<Vec<Option<i32>> as InputType>::parse(None).is_err());
+    }
+
     // ---- known (unfixed) findings: these FAIL on the unchanged tree by design; run with --ignored.
 
     /// C01 (known finding): a non-finite float returned from a `Float!` field must not put null
